@@ -17,7 +17,7 @@ RULE = ('seeded instrumented charts (spied hand-written, template, factory and t
 ASSUMPTIONS = ['no schedule dimension', 'start record: the statement says "top -> start state"; when the start state has initial transitions both the start state and the resting state are accepted']
 PROBES = ['meta_only_step']
 PLAN = {
-  'quick': {'strata': {'trace': 5000, 'meta': 1500}, 'wall_s': 90, 'chunk': 100, 'min_conclusive': 1000},
+  'quick': {'strata': {'trace': 5000, 'meta': 1500}, 'wall_s': 300, 'chunk': 100, 'min_conclusive': 1000},
   'thorough': {'strata': {'trace': 120000, 'meta': 40000}, 'wall_s': 900, 'chunk': 250, 'min_conclusive': 10000},
 }
 ORACLES = [co.check_trace]
